@@ -89,13 +89,15 @@ class LoopSpec:
       variant(loc) -> SNum                 optional, must decrease and stay >= 0
     """
     def __init__(self, anchor: str, invariant=None, havoc=None, element=None, variant=None,
-                 on_exit=None, name=''):
+                 on_exit=None, name='', at_backedge=None, rebinds=()):
         self.anchor = anchor
         self.invariant = invariant or (lambda loc: True)
         self.havoc = havoc or (lambda loc: {})
         self.element = element
         self.variant = variant
         self.on_exit = on_exit
+        self.rebinds = tuple(rebinds)       # extra locals (not assigned in the loop body) that havoc() may re-bind
+        self.at_backedge = at_backedge      # per-iteration obligations, called at the back edge before the invariant
         self.name = name or anchor
 
 
@@ -188,7 +190,7 @@ class _Rewriter(ast.NodeTransformer):
         stmts: list[ast.stmt] = []
         # locals().update() does not work in functions: havocked locals are re-bound by exec-free
         # explicit assignments generated for every local name assigned in the loop body.
-        assigned = sorted(_assigned_names(node))
+        assigned = sorted(_assigned_names(node) | set(spec.rebinds))
         head_call = ast.Call(func=ast.Name('__vc_loop_head__', ast.Load()), args=[K, loc], keywords=[])
         stmts.append(ast.Assign(targets=[ast.Name('__vc_h', ast.Store())], value=head_call))
         for name in assigned:
@@ -287,7 +289,7 @@ def load(modname: str, qualname: str, *, stubs: dict[str, Any] | None = None,
     node = find_def(tree, qualname)
     text = _src_cache[path][0]
     seg = lambda n: ast.get_source_segment(text, n) or ''
-    ckey = (path, qualname, tuple(sorted((k, v.anchor) for k, v in (loops or {}).items())), tuple(strip_decorators))
+    ckey = (path, qualname, tuple(sorted((k, v.anchor, v.rebinds) for k, v in (loops or {}).items())), tuple(strip_decorators))
     code = _code_cache.get(ckey)
     if code is None:
         import copy
@@ -466,7 +468,7 @@ def _has_sym(val, depth=0) -> bool:
 
 def _shadow_builtins() -> dict[str, Any]:
     def s_len(x):
-        if isinstance(x, V.SV):
+        if isinstance(x, V.SV) or hasattr(type(x), 'vc_len'):
             return x.vc_len()
         return builtins.len(x)
 
@@ -586,6 +588,11 @@ def _TypeShadow(real, fn):
     return T
 
 
+def _hid(eng):
+    h = getattr(eng, 'hid', '')
+    return f'{h}.' if h else ''
+
+
 class _LoopRuntime:
     def __init__(self, loops: dict[int, LoopSpec]):
         self.loops = loops
@@ -594,7 +601,7 @@ class _LoopRuntime:
         spec = self.loops[k]
         eng = E()
         loc = dict(loc)
-        eng.ensure(f'loop[{spec.name}].invariant@entry', spec.invariant(loc))
+        eng.ensure(f'{_hid(eng)}loop[{spec.name}].invariant@entry', spec.invariant(loc))
         new = spec.havoc(loc) or {}
         loc.update(new)
         eng.assume(spec.invariant(loc), f'loop[{spec.name}] invariant')
@@ -608,11 +615,13 @@ class _LoopRuntime:
         spec = self.loops[k]
         eng = E()
         loc = dict(loc)
-        eng.ensure(f'loop[{spec.name}].invariant@backedge', spec.invariant(loc))
+        if spec.at_backedge is not None:
+            spec.at_backedge(loc)
+        eng.ensure(f'{_hid(eng)}loop[{spec.name}].invariant@backedge', spec.invariant(loc))
         if spec.variant is not None:
             v0 = eng._variants[k]
             v1 = spec.variant(loc)
-            eng.ensure(f'loop[{spec.name}].variant-decreases', V.And(v1 < v0, v0 >= 0))
+            eng.ensure(f'{_hid(eng)}loop[{spec.name}].variant-decreases', V.And(v1 < v0, v0 >= 0))
         eng.backedge = True
         eng.dead = True
         raise PathEnd(f'back edge of loop {k}')
